@@ -598,6 +598,9 @@ func runCell(p *pki, o *origin, comp *origin, cl cell, timeout time.Duration) (r
 			// leftover of an earlier (forced) HTTP/3 dial
 			viol("unforced-timeout-without-quic", "nothing is forced and the origin neither has nor advertises HTTP/3, yet the request failed with a dial timeout: "+rec.Detail)
 		}
+		if !o.spec.HTTPS && force == "" && rec.Outcome == "EScheme" {
+			viol("plain-http-refused", "nothing is forced, yet the plain http request was refused for its scheme instead of being sent over HTTP/1.1: "+rec.Detail)
+		}
 		if ok && !o.spec.HTTPS {
 			if rec.Outcome == "V3" || (rec.Outcome == "V2" && !w.h2c) {
 				viol("plain-http-used-"+used, "plain HTTP request served over HTTP/"+used+" without h2c being enabled")
